@@ -10,7 +10,7 @@ bind_args argument -> parameter binding of a call against a FuncInfo.
 """
 import ast
 from ..index import AnalysisError, dotted
-from ..astutil import text, short, endswith, calls_in, walk_no_nested, stmt_defs
+from ..astutil import text, short, endswith, walk_no_nested, stmt_defs
 from ..dataflow import DefUse
 from .. import events as E
 
@@ -210,6 +210,9 @@ class Flow(object):
         return []
       seen = seen | {key}
       return [r.plus(("elem",), *p) for r in self.roots(g.iter, nid, seen, depth + 1)]
+    return self._roots_of_name(name, e, nid, seen, depth)
+
+  def _roots_of_name(self, name, e, nid, seen, depth):
     if name not in self.defs and name not in self.params:
       return [Root("global", name, (), nid)]
     rdefs, from_entry = self.reaching(name, nid)
@@ -233,6 +236,11 @@ class Flow(object):
           if p is not None:
             got = True
             out.extend(r.plus(*p) for r in self.roots(s.value, d, sub_seen, depth + 1))
+      elif n.kind == "stmt" and isinstance(s, ast.AugAssign) and isinstance(s.target, ast.Name) \
+          and s.target.id == name:
+        # in-place update: the object (for containers) is the one bound before the statement
+        got = True
+        out.extend(self._roots_of_name(name, e, d, sub_seen, depth + 1))
       elif n.kind == "stmt" and isinstance(s, ast.AnnAssign) and s.value is not None:
         p = _pos_in_target(s.target, name)
         if p is not None:
@@ -303,7 +311,7 @@ def guards_of(fnode, target):
   if tests (True for body, False for orelse), enclosing while tests, and for every block on the
   way earlier sibling `if T: <continue/return/raise/break>` statements (T, False); an early exit
   nested in further ifs contributes the conjunction of the tests on the way (synthesised `and`
-  expression, False)."""
+  expression, False). A top-level `not` is folded into the polarity."""
   out = []
 
   def escapes(s):
@@ -379,7 +387,22 @@ def guards_of(fnode, target):
 
   if not go(fnode.body):
     raise AnalysisError("guards_of: node not found in %s" % getattr(fnode, "name", "?"))
-  return out
+  norm = []
+  for (t, p) in out:
+    while isinstance(t, ast.UnaryOp) and isinstance(t.op, ast.Not):
+      t, p = t.operand, not p
+    if isinstance(t, ast.Constant) and bool(t.value) == p:
+      continue          # `if True:` and the like constrain nothing
+    norm.append((t, p))
+  return norm
+
+
+def strip_passthrough(e):
+  """Look through sorted()/list()/tuple()/reversed()/iter() wrappers."""
+  while isinstance(e, ast.Call) and dotted(e.func) in PASSTHROUGH and e.args and \
+      (len(e.args) == 1):
+    e = e.args[0]
+  return e
 
 
 def bind_args(call, fi, skip_self=True):
